@@ -40,6 +40,11 @@ pub struct Case {
     /// input path instead of a regular file: same bytes, but no size to be known in advance
     #[serde(default)]
     pub via_fifo: bool,
+    /// file with holes, as disk images and database files have them: the content is padded to a
+    /// multiple of the chunk size (4 KiB / 64 KiB / 128 KiB / 1 MiB) and `count` whole chunks of
+    /// zeros are put at (where) 0 the end, 1 the start, 2 the middle, 3 everywhere
+    #[serde(default)]
+    pub holes: Option<(u8, u8, u8)>,
 }
 
 static COUNTER: AtomicU64 = AtomicU64::new(0);
@@ -91,7 +96,26 @@ pub fn check(case: &Case, ctx: &mut CaseCtx) -> CaseResult {
     let name_shown = String::from_utf8_lossy(name_bytes).to_string();
     ctx.feat_if(std::str::from_utf8(name_bytes).is_err(), "name:not_utf8");
     ctx.feat_if(std::str::from_utf8(name_bytes).is_ok() && !name_bytes.is_ascii(), "name:non_ascii_utf8");
-    let data = case.data.render();
+    let mut data = case.data.render();
+    if let Some((place, chunk, count)) = case.holes {
+        let c = [4usize << 10, 64 << 10, 128 << 10, 1 << 20][(chunk % 4) as usize];
+        let n = data.len().div_ceil(c).max(1) * c;
+        let mut k = 0usize;
+        while data.len() < n {
+            data.push((k as u8).wrapping_mul(31) ^ 0x55);
+            k += 1;
+        }
+        let chunks = n / c;
+        let count = (count as usize).clamp(1, chunks);
+        let range = match place % 4 {
+            0 => (chunks - count) * c..n,
+            1 => 0..count * c,
+            2 => (chunks - count) / 2 * c..((chunks - count) / 2 + count) * c,
+            _ => 0..n,
+        };
+        data[range].fill(0);
+        ctx.feat(["content:zero_chunks_at_the_end_(size_a_multiple_of_the_chunk)", "content:zero_chunks_at_the_start", "content:zero_chunks_in_the_middle", "content:all_zero_(size_a_multiple_of_the_chunk)"][(place % 4) as usize]);
+    }
     let input = dir.join(&name);
     let fifo = case.via_fifo && case.scenario == Scenario::RoundTrip && matches!(case.level, Level::Absent | Level::L(0) | Level::L(1));
     let mut feeder: Option<std::thread::JoinHandle<()>> = None;
@@ -291,7 +315,8 @@ fn case_strategy(tier: Tier) -> impl Strategy<Value = Case> {
             data.len = ((k as i64) * (1 << 20) + delta) as u32;
         }
         let via_fifo = !stale_outputs && data.seed % 8 == 0;
-        Case { data, name, level, explicit_out, scenario, stale_outputs, via_fifo }
+        let holes = if data.seed % 6 == 1 { Some(((data.seed >> 4) as u8 % 4, (data.seed >> 8) as u8 % 4, 1 + (data.seed >> 12) as u8 % 3)) } else { None };
+        Case { data, name, level, explicit_out, scenario, stale_outputs, via_fifo, holes }
     })
 }
 
